@@ -90,11 +90,13 @@ class FFSP(Adapter):
     def group_key(self, inst):
         return (inst["S"], inst["m"], inst["N"])
 
-    def horizon(self, inst):
-        return sum(sum(r) for r in inst["rt"]) + 1
+    def step_bound(self, inst):
+        S, m = inst["S"], inst["m"]
+        hpre = sum(max(r[s * m:(s + 1) * m]) for r in inst["rt"] for s in range(S - 1))
+        return inst["N"] * S + (S - 1) * m * hpre
 
     def step_cap(self, inst):
-        return inst["N"] * inst["S"] + (inst["S"] - 1) * inst["m"] * self.horizon(inst) + 2
+        return self.step_bound(inst) + 2
 
     def close_steps(self, inst):
         return 0
@@ -102,6 +104,8 @@ class FFSP(Adapter):
     def make_env(self, inst):
         from rl4co.envs import FFSPEnv
 
+        # tiny int64 tensors: the intra-op thread pool only adds contention (x1000 on a busy box)
+        torch.set_num_threads(1)
         env = FFSPEnv(generator_params={"num_stage": inst["S"], "num_machine": inst["m"],
                                         "num_job": inst["N"], "min_time": 1, "max_time": 3})
         self._env = _LoopEnv(env)
